@@ -134,10 +134,8 @@ func Analyze(ctx context.Context, scope *ReferenceScope, view *View, fn parser.A
 
 	var analyzeFn = func(thIdx int) {
 		defer func() {
-			if !gm.HasError() {
-				if panicReport := recover(); panicReport != nil {
-					gm.SetError(NewFatalError(panicReport))
-				}
+			if panicReport := recover(); panicReport != nil {
+				gm.SetError(NewFatalError(panicReport))
 			}
 
 			if 1 < gm.Number {
